@@ -135,3 +135,23 @@ func runResets() {
 // Zero returns the zero value of T (used by the generated reset functions;
 // `new` may be shadowed in the rewritten package).
 func Zero[T any]() (z T) { return }
+
+// Forget drops the bookkeeping of objects created so far in this execution: the registry of channels and atomic
+// words that feeds the state hash, the recorded hook events and the records of finished goroutines.  A harness
+// that evaluates many independent cases inside ONE long execution calls it between cases (at a quiescent point) so
+// that memory does not grow with the number of cases.  State hashes are only counted, never used for pruning, so
+// forgetting an object that is in fact still in use affects nothing but that statistic.
+func Forget() {
+	w := W
+	if w == nil {
+		return
+	}
+	w.hashers = nil
+	w.words = map[interface{}]uint64{}
+	w.Hooks = nil
+	for i, g := range w.gs {
+		if g != nil && g.state == gDone {
+			w.gs[i] = nil
+		}
+	}
+}
